@@ -25,7 +25,7 @@ RangeIms(z)  == {NoIms, BadIms, Date(-1), Date(0), Date(1)}
 (* conditional requests under every zone: at the modification time, one second either side, at the zone's
    offset(s) either side of it (+-1 s), and far away *)
 Abs(x) == IF x < 0 THEN -x ELSE x
-CondDeltas(z) == {-1, 0, 1, -34560000, 345600000}
+CondDeltas(z) == {-1, 0, 1, -34560000, 345600000, 1500000000}
                  \cup {s * (Abs(ZoneOffsets(z)[i]) + e) : s \in {-1, 1}, e \in {-1, 0, 1}, i \in {1, 2}}
 CondIms(z)   == {NoIms, BadIms} \cup {Date(d) : d \in CondDeltas(z)}
 CondFiles    == { <<"f0">>, <<"f3">>, <<"x">> }
@@ -43,15 +43,26 @@ SmallIms(z) == {NoIms, Date(-1), Date(0), Date(1)}
 NoFbOnly    == {"none"}
 
 Emit == Done => PrintT(ToJson([t |-> "case", c |-> rq, e |-> O]))
+(* histories on one route object: the mutable file and a fixed one, with and without fallback *)
+PastOnly   == {"past"}
+AbsentOnly == {0}
+AnyM       == {0, 1, 2}
+HistFiles  == { <<"m">>, <<"f3">> }
+HistRanges == {NoRange, R("s", 2, 0)}
+EmitHist == (Done /\ nreq = MaxReq) =>
+            PrintT(ToJson([t |-> "hist", steps |-> Append(h, [m |-> mstate, c |-> rq, e |-> O])]))
 
 Atoms == {SEP, DOT, SP, BSL, BAD, "f0", "f1", "f2", "f3", "f4", "f5", "f6", "t", "sub", "g2", "tmp", "base", "root",
-          "x", "u", "s4", "o5", "fb3", "L", "M"}
+          "x", "u", "m", "s4", "o5", "fb3", "L", "M"}
 RECURSIVE SetToList(_)
 SetToList(S) == IF S = {} THEN <<>> ELSE LET e == CHOOSE e \in S : TRUE IN <<e>> \o SetToList(S \ {e})
-FileRec(e) == [path |-> e.path, size |-> e.size, content |-> Content(e.path)]
+FileRec(e) == [path |-> e.path, size |-> e.size, content |-> ContentSeq(e.tag, e.size)]
 ASSUME PrintT(ToJson([t |-> "fs",
-                      files |-> SetToList({FileRec(e) : e \in FS}),
+                      files |-> SetToList({FileRec(e) : e \in StaticFS}),
                       widths |-> [a \in Atoms |-> Width(a)],
                       root |-> Root, sibling |-> Sib, fbin |-> FbPath("in"), fbout |-> FbPath("out"), maxwidth |-> MaxWidth,
-                      zones |-> [z \in AllZones |-> ZoneOffsets(z)], nolm |-> NoLM]))
+                      zones |-> [z \in AllZones |-> ZoneOffsets(z)], nolm |-> NoLM,
+                      clocks |-> [k \in AllClocks |-> NowMinusMtime(k)],
+                      mfile |-> Root \o << <<"m">> >>,
+                      mversions |-> <<ContentSeq(12, 3), ContentSeq(13, 5)>>]))
 ===============================================================================
